@@ -1029,7 +1029,11 @@ func (in *inliner) funcLits(nodes ...ast.Node) {
 		}
 		ast.Inspect(nd, func(n ast.Node) bool {
 			if fl, ok := n.(*ast.FuncLit); ok {
-				in.block(fl.Body.List, nil)
+				// a literal that only forwards its parameters to one function stays as it is: it reads as that function
+				// (forwardTarget), whose parameters are then in the frame the rules know
+				if !isForwardingLit(fl) {
+					in.block(fl.Body.List, nil)
+				}
 				return false
 			}
 			return true
@@ -1599,4 +1603,43 @@ func applyEdits(src []byte, edits []textEdit, addImports map[string]string, f *a
 		out = append(append(append([]byte{}, out[:ins]...), []byte(ib.String())...), out[ins:]...)
 	}
 	return out, nil
+}
+
+
+// isForwardingLit: the literal's body is one call (as a statement or returned) whose trailing arguments are exactly the
+// literal's parameters, in order.
+func isForwardingLit(fl *ast.FuncLit) bool {
+	if fl.Body == nil || len(fl.Body.List) != 1 {
+		return false
+	}
+	var call *ast.CallExpr
+	switch st := fl.Body.List[0].(type) {
+	case *ast.ExprStmt:
+		call, _ = st.X.(*ast.CallExpr)
+	case *ast.ReturnStmt:
+		if len(st.Results) == 1 {
+			call, _ = st.Results[0].(*ast.CallExpr)
+		}
+	}
+	if call == nil {
+		return false
+	}
+	var params []string
+	if fl.Type.Params != nil {
+		for _, f := range fl.Type.Params.List {
+			for _, n := range f.Names {
+				params = append(params, n.Name)
+			}
+		}
+	}
+	if len(call.Args) < len(params) {
+		return false
+	}
+	for k, pn := range params {
+		id, ok := call.Args[len(call.Args)-len(params)+k].(*ast.Ident)
+		if !ok || id.Name != pn {
+			return false
+		}
+	}
+	return true
 }
